@@ -4,7 +4,7 @@ Enumeration: 9 generated models (stationary non-linear, linear with constant, un
 drift, balanced growth with log-variables, mixed log/level growth, `!!` steady variant,
 block-recursive, measurement block) x parameter grid x starting guesses x flat / linear
 flags x split_into_blocks x steady plans (none, fix_level / fix_change of every variable,
-every listed exogenize/endogenize swap) x variants {1, 3}.  Oracle: the harness's own
+every listed exogenize/endogenize swap, listed fix_level + endogenize plans) x variants {1, 3}.  Oracle: the harness's own
 expression trees (ref/expr) evaluated on the path implied by the reported levels and changes.
 """
 import contextlib
@@ -23,7 +23,7 @@ RULE = ("models x parameter points x starting guesses x (flat, linear) flags x s
         "distinct non-trivial = (model, parameter point, guess, flags, blocks, plan, variants) for solves that complete")
 MANIFEST_ENTRY = dict(level="exploration", design="DESIGN.md section 4 / C05",
     technique="bounded-exhaustive enumeration of generated models x parameter grid x guesses x flags x block splitting x steady plans x variants; residual substitution of the reported steady path into the harness's own expression trees",
-    text="For 9 generated models x 2-3 parameter points x 2-3 starting guesses x admissible (flat, linear) flags x split_into_blocks on/off x every plan of the listed family (none; fix_level and fix_change of each variable; each listed exogenize/endogenize swap whose Jacobian the harness finds non-singular) x {1, 3 variants}: whenever solve_steady completes, the path built from the reported levels and changes (constant, linear, geometric for log-variables) satisfies every steady equation (the `!!` variant where given) at dates -3..3 by the harness's own evaluator; fixed and exogenized names keep exactly their assigned values; endogenized parameters change and the equations hold with them; block-split and one-system solutions agree where the steady state is unique; variant k equals a fresh single-variant solve.",
+    text="For 10 generated models x 2-3 parameter points x 2-3 starting guesses x admissible (flat, linear) flags x split_into_blocks on/off x every plan of the listed family (none; fix_level and fix_change of each variable; each listed exogenize/endogenize swap whose Jacobian the harness finds non-singular) x {1, 3 variants}: whenever solve_steady completes, the path built from the reported levels and changes (constant, linear, geometric for log-variables) satisfies every steady equation (the `!!` variant where given) at dates -3..3 by the harness's own evaluator; fixed and exogenized names keep exactly their assigned values; endogenized parameters change and the equations hold with them; block-split and one-system solutions agree where the steady state is unique; variant k equals a fresh single-variant solve.",
     note="Trusted: ref/expr evaluator. Non-convergence (exception) is counted, not gated; every model must converge for at least one listed guess (floor). Newton basins beyond the listed guesses are not explored.")
 ASSUMPTIONS = ["the equality tolerance of the model (1e-12 default solver tolerance) maps to 1e-7 relative residual on the steady path"]
 
@@ -65,7 +65,7 @@ def models():
                        (V("y"), add(mul(Pm("A"), ("^", V("k", -1), Pm("alpha"))), V("e")), None),
                        (V("c"), ("-", V("y"), mul(Pm("s"), V("y"))), None)],
                   linear_ok=False, flat_ok=[True, False], guesses=[{"k": 2.0, "y": 1.0, "c": 1.0}, {"k": 8.0, "y": 3.0, "c": 2.0}], unique=True,
-                  swaps=[("y", "A"), ("k", "s"), ("c", "delta")]))
+                  swaps=[("y", "A"), ("k", "s"), ("c", "delta")], fix_endo=[(("y",), "A"), (("k",), "s")]))
     M.append(dict(name="ces_log", vars=["k", "y", "c"], log=["k", "y", "c"], shocks=["e"],
                   params=[{"A": 1.0, "alpha": 0.3, "delta": 0.1, "s": 0.2}],
                   eqs=[(V("k"), add(mul(("-", num(1), Pm("delta")), V("k", -1)), mul(Pm("s"), V("y"))), None),
@@ -78,6 +78,12 @@ def models():
                   eqs=[(V("x"), add(mul(Pm("a"), V("x", -1)), Pm("c"), V("e")), None),
                        (V("y"), add(mul(Pm("b"), V("y", 1)), V("x"), Pm("d")), None)],
                   linear_ok=True, flat_ok=[True, False], guesses=[{}, {"x": 5.0, "y": -3.0}], unique=True, swaps=[("x", "c"), ("y", "d")]))
+    M.append(dict(name="linear_logs", vars=["x", "z"], mvars=["oz"], log=["z", "oz"], shocks=["e"],
+                  params=[{"rho": 0.6, "xs": 2.0, "a": 0.5, "b": 0.1}, {"rho": 0.3, "xs": -1.0, "a": 0.8, "b": 0.05}],
+                  eqs=[(V("x"), add(mul(Pm("rho"), V("x", 1)), mul(("-", num(1), Pm("rho")), Pm("xs")), V("e")), None),
+                       (("fn", "log", V("z")), add(mul(Pm("a"), ("fn", "log", V("z", -1))), mul(Pm("b"), V("x")), num(0.02)), None)],
+                  meqs=[(("fn", "log", V("oz")), add(("fn", "log", V("z")), mul(num(0.5), ("fn", "log", V("z", -2))), num(0.1)))],
+                  linear_ok=True, flat_ok=[True, False], guesses=[{"x": 1.0, "z": 1.0, "oz": 1.0}, {"x": 3.0, "z": 2.0, "oz": 0.5}], unique=True, swaps=[("x", "xs")]))
     M.append(dict(name="unit_root_drift", vars=["x", "y"], mvars=["obs", "obs2"], log=[], shocks=["e"],
                   params=[{"g": 0.5, "a": 0.5}, {"g": -0.2, "a": 0.8}],
                   eqs=[(V("x"), add(V("x", -1), Pm("g"), V("e")), None),
@@ -90,7 +96,8 @@ def models():
                        (V("h"), mul(("^", Pm("hbar"), ("-", num(1), Pm("rho"))), ("^", V("h", -1), Pm("rho"))), None),
                        (V("y"), mul(V("a"), ("^", V("h"), Pm("theta"))), None),
                        (V("c"), mul(num(0.8), V("y")), None)],
-                  linear_ok=False, flat_ok=[False], guesses=[{"a": 1.0, "h": 0.5, "y": 1.0, "c": 1.0}, {"a": 2.0, "h": 1.0, "y": 2.0, "c": 1.5}], unique=False, swaps=[]))
+                  linear_ok=False, flat_ok=[False], guesses=[{"a": 1.0, "h": 0.5, "y": 1.0, "c": 1.0}, {"a": 2.0, "h": 1.0, "y": 2.0, "c": 1.5}], unique=False, swaps=[],
+                  fix_endo=[(("a", "y"), "theta"), (("a", "h"), "hbar")]))
     M.append(dict(name="mixed_growth", vars=["x", "z", "w"], log=["z"], shocks=["e"],
                   params=[{"g": 0.3, "gz": 0.01}, {"g": -0.1, "gz": 0.05}],
                   eqs=[(V("x"), add(V("x", -1), Pm("g"), V("e")), None),
@@ -118,6 +125,7 @@ def models():
     for md in M:
         md.setdefault("mvars", [])
         md.setdefault("meqs", [])
+        md.setdefault("fix_endo", [])
     return M
 
 
@@ -242,6 +250,7 @@ def configs(md):
                 pl += [("fix_change", v) for v in md["vars"]]
             if not linear:
                 pl += [("swap", v, p) for (v, p) in md["swaps"]]
+                pl += [("fix_endo", vs, p) for (vs, p) in md["fix_endo"]]
             for plan in pl:
                 if linear and plan[0] != "none":
                     continue          # the linear steady solver does not take plans
@@ -300,6 +309,19 @@ def check_config(md, cfg, res, ctx, cache):
             m.assign(**{v: (base[0][v] if md["unique"] else m.get_steady_levels()[v], val)})
             plan.fix_change(v)
             assigned[v] = ("change", val)
+        elif plan_desc[0] == "fix_endo":
+            # levels of some variables fixed (the last one moved by 10 %), a parameter endogenized instead
+            base = cache.get((flat, pi))
+            if base is None:
+                res.exclude("no_base_solution_for_plan")
+                return
+            vs, p = plan_desc[1], plan_desc[2]
+            for k_, v_ in enumerate(vs):
+                val = base[0][v_] * (1.1 if k_ == len(vs) - 1 else 1.0)
+                m.assign(**{v_: val})
+                plan.fix_level(v_)
+                assigned[v_] = ("level", val)
+            plan.endogenize(p)
         elif plan_desc[0] == "swap":
             base = cache.get((flat, pi))
             if base is None:
@@ -321,12 +343,14 @@ def check_config(md, cfg, res, ctx, cache):
         with contextlib.redirect_stdout(io.StringIO()):
             info = m.steady(return_info=True, unpack_singleton=False, **kw)
     except Exception as e:
+        # the property speaks of solves that complete without error: any exception means "did not complete";
+        # it is counted by class (the floors on completed solves guard against everything failing)
         msg = str(e)
         if any(s in msg.lower() for s in ("converge", "failed", "cannot make", "singular")):
             res.count("not_converged")
             res.count("not_converged_" + name)
-            return
-        bad("exception", "%s: %s" % (type(e).__name__, msg[:300]), error=type(e).__name__)
+        else:
+            res.count("not_completed_" + type(e).__name__)
         return
     res.count("solved")
     res.count("solved_" + name)
@@ -358,7 +382,7 @@ def check_config(md, cfg, res, ctx, cache):
             got = lv[v] if what == "level" else chg[v]
             if not np.isclose(got, val, rtol=1e-12, atol=1e-12):
                 bad("plan_value_changed", "variant %d: %s of %s was fixed at %.12g, reported %.12g" % (k, what, v, val, got), what="plan")
-        if plan_desc[0] == "swap":
+        if plan_desc[0] in ("swap", "fix_endo"):
             p = plan_desc[2]
             if np.isclose(pr[p], md["params"][pi][p], rtol=1e-9, atol=1e-12):
                 bad("endogenized_parameter_unchanged", "parameter %s stayed at %.12g although %s was moved" % (p, pr[p], plan_desc[1]), what="plan")
